@@ -38,6 +38,8 @@ VARIANTS = (
     + [("quaternion_schur_experimental", {"variant": v}) for v in ("aed_windowed", "francis_ds")]
     # window smaller than the matrix (the default window of 12 never bites for n <= 5)
     + [("quaternion_schur_experimental", {"variant": v, "window": 2}) for v in ("aed_windowed", "francis_ds")]
+    # deflation window smaller than the matrix
+    + [("quaternion_schur_unified", {"variant": v, "aed_window": w}) for v in ("aed", "ds") for w in (2, 3)]
 )
 CLASSES = ["generic", "hermitian", "hermitian_repeat", "triu", "normal", "rank1", "q8int", "zero_first_col", "zero_subdiag", "identity", "zero", "near_hermitian", "near_triu", "scaled_2^-30", "scaled_2^30",
            "sp:cyclic_shift", "sp:cyclic_shift_q", "sp:exchange", "sp:lower_shift", "sp:upper_shift", "sp:companion", "sp:ones", "sp:path_laplacian",
@@ -56,9 +58,9 @@ def cases(tier, seed):
     N = 3 if tier == "quick" else 5
     out = []
     for vi, (fn, kw) in enumerate(VARIANTS):
-        for n in range(1, N + 2):
+        for n in range(1, (N + 2) if "aed_window" not in kw else 7):
             for cls in CLASSES:
-                if n > N and cls not in ("generic", "hermitian", "zero_first_col", "normal"):
+                if n > N and cls not in ("generic", "hermitian", "zero_first_col", "normal") and not ("aed_window" in kw and cls in ("zero_subdiag", "triu", "near_triu")):
                     continue
                 if n > N and tier == "quick" and fn == "quaternion_schur_pure" and kw.get("shift_mode") == "none":
                     continue
